@@ -129,7 +129,7 @@ class Project(object):
                     t = ast.parse(src, filename=path)
                 except SyntaxError as e:
                     raise AnalysisError("cannot parse %s: %s" % (path, e))
-                propagate_constants(t)
+                propagate_constants(t, fn[:-3])
                 raw_trees[fn[:-3]] = t
         for fn, (path, src) in sorted(sources.items()):
             h.update(fn.encode())
